@@ -5,7 +5,9 @@
 //! N shards; all instances share one harness clock.
 //!
 //!   api_diff    programs of data commands (vcore::gen::data_command incl. multi-key / two-key
-//!               commands, KEYS/SCAN/DBSIZE/FLUSH*, RANDOMKEY, SORT [STORE], EVAL), plain
+//!               commands, KEYS/SCAN/DBSIZE/FLUSH*, RANDOMKEY, SORT [STORE], EVAL/EVALSHA over a script
+//!               pool, SCRIPT LOAD|EXISTS|FLUSH, CONFIG GET|SET, SELECT/ECHO/PING/WAIT and the key-less
+//!               stubs — everything `execute` sends to shard 0 only), plain
 //!               GET/SET through a generated entry path (generic execute, fast_*, pooled_fast_*,
 //!               fast_batch_*_pipeline), multi-key batch pipelines, clock steps with/without a
 //!               TTL-manager tick (evict_expired_all_shards).
@@ -393,7 +395,7 @@ fn cross_shard(keys: &[String], shards: &[usize], r: &Routing) -> bool {
 fn normalise(name: &str, r: &Reply) -> Reply {
     match name {
         "KEYS" | "SMEMBERS" | "HKEYS" | "HVALS" => r.sorted(),
-        "HGETALL" => r.sorted_pairs(),
+        "HGETALL" | "CONFIG" => r.sorted_pairs(),
         _ => r.clone(),
     }
 }
@@ -589,6 +591,11 @@ async fn run_api(case: &ApiCase, ctx: &mut CaseCtx<'_>) -> Result<bool, String> 
             Step::Cmd { argv, .. } => (cmd_name(argv), parse_zc(argv).ok()),
             _ => (String::new(), None),
         };
+        if let Step::Cmd { argv, .. } = step {
+            if let Some(f) = keyless_family(argv) {
+                ctx.label(&format!("cmd:{}", f));
+            }
+        }
         if let Some(cmd) = &parsed {
             let keys = cmd.get_keys();
             if fk.is_empty() && !matches!(cmd, Command::Keys(_)) {
@@ -815,6 +822,129 @@ fn extra_commands(o: &GenOpts) -> BoxedStrategy<Argv> {
     .boxed()
 }
 
+/// Scripts that read/write their KEYS[1] (index 4: no key at all, runs on shard 0)
+const SCRIPTS: &[&[u8]] = &[
+    b"return redis.call('GET', KEYS[1])",
+    EVAL_INCR,
+    EVAL_SETGET,
+    b"return redis.call('EXISTS', KEYS[1])",
+    b"return 7",
+];
+/// never sent with EVAL or SCRIPT LOAD: its sha is never in the cache
+const NEVER_LOADED: &[u8] = b"return 'never loaded'";
+
+fn sha_of(script: &[u8]) -> Vec<u8> {
+    redis_sim::redis::lua::SharedScriptCache::compute_sha1(std::str::from_utf8(script).unwrap_or("")).into_bytes()
+}
+
+/// EVAL / EVALSHA argv for script `i` on key `k`
+fn script_call(by_sha: bool, i: usize, k: &[u8], v: &[u8]) -> Argv {
+    let body: Vec<u8> = if by_sha {
+        if i >= SCRIPTS.len() { sha_of(NEVER_LOADED) } else { sha_of(SCRIPTS[i]) }
+    } else {
+        SCRIPTS[i.min(SCRIPTS.len() - 1)].to_vec()
+    };
+    let name: &[u8] = if by_sha { b"EVALSHA" } else { b"EVAL" };
+    let i = i.min(SCRIPTS.len() - 1);
+    match i {
+        4 => a(&[name, &body, b"0"]),
+        2 => a(&[name, &body, b"1", k, v]),
+        _ => a(&[name, &body, b"1", k]),
+    }
+}
+
+/// Commands that reach server-wide state which is not the keyspace, or that have no routing key
+/// at all (ShardedActorState::execute sends those to shard 0 only): the script cache
+/// (EVAL/EVALSHA/SCRIPT LOAD|EXISTS|FLUSH), CONFIG GET|SET|RESETSTAT, SELECT, ECHO, PING, WAIT,
+/// COMMAND, FUNCTION FLUSH, CLIENT *, OBJECT *, DEBUG *, unknown commands. INFO and TIME are left
+/// out (process id, memory, wall clock, and INFO prints num_shards by design).
+fn server_commands(o: &GenOpts) -> BoxedStrategy<Argv> {
+    let k = || gen::key(o);
+    let sha = || (0usize..SCRIPTS.len() + 1).prop_map(|i| if i >= SCRIPTS.len() { sha_of(NEVER_LOADED) } else { sha_of(SCRIPTS[i]) });
+    let param = || {
+        prop_oneof![
+            Just(&b"hash-max-listpack-entries"[..]),
+            Just(&b"hash-max-listpack-value"[..]),
+            Just(&b"maxmemory"[..]),
+            Just(&b"hz"[..]),
+            Just(&b"no-such-parameter"[..]),
+        ]
+    };
+    prop_oneof![
+        6 => (0usize..SCRIPTS.len(), k(), gen::value()).prop_map(|(i, k, v)| script_call(false, i, &k, &v)),
+        8 => (0usize..SCRIPTS.len() + 1, k(), gen::value()).prop_map(|(i, k, v)| script_call(true, i, &k, &v)),
+        3 => (0usize..SCRIPTS.len()).prop_map(|i| a(&[b"SCRIPT", b"LOAD", SCRIPTS[i]])),
+        4 => proptest::collection::vec(sha(), 1..4).prop_map(|shas| {
+            let mut c = a(&[b"SCRIPT", b"EXISTS"]);
+            c.extend(shas);
+            c
+        }),
+        4 => Just(a(&[b"SCRIPT", b"FLUSH"])),
+        3 => (param(), prop_oneof![Just(&b"1"[..]), Just(&b"64"[..]), Just(&b"yes"[..])]).prop_map(|(p, v)| a(&[b"CONFIG", b"SET", p, v])),
+        3 => prop_oneof![param().boxed(), Just(&b"hash-max-*"[..]).boxed(), Just(&b"*max*"[..]).boxed()].prop_map(|p| a(&[b"CONFIG", b"GET", p])),
+        1 => Just(a(&[b"CONFIG", b"RESETSTAT"])),
+        1 => prop_oneof![Just(&b"0"[..]), Just(&b"1"[..]), Just(&b"16"[..])].prop_map(|d| a(&[b"SELECT", d])),
+        1 => gen::value().prop_map(|v| a(&[b"ECHO", &v])),
+        1 => prop_oneof![Just(a(&[b"PING"])), Just(a(&[b"PING", b"hello"]))],
+        1 => Just(a(&[b"WAIT", b"0", b"0"])),
+        1 => prop_oneof![Just(a(&[b"COMMAND", b"COUNT"])), Just(a(&[b"FUNCTION", b"FLUSH"])), Just(a(&[b"NOSUCHCOMMAND", b"x"]))],
+        1 => prop_oneof![
+            Just(a(&[b"CLIENT", b"GETNAME"])),
+            Just(a(&[b"CLIENT", b"ID"])),
+            Just(a(&[b"CLIENT", b"SETNAME", b"c1"])),
+            Just(a(&[b"CLIENT", b"INFO"])),
+        ],
+        2 => (prop_oneof![Just(&b"ENCODING"[..]), Just(&b"REFCOUNT"[..]), Just(&b"IDLETIME"[..]), Just(&b"FREQ"[..])], k())
+            .prop_map(|(sub, k)| a(&[b"OBJECT", sub, &k])),
+        1 => prop_oneof![
+            Just(a(&[b"OBJECT", b"HELP"])),
+            Just(a(&[b"DEBUG", b"SLEEP", b"0"])),
+            Just(a(&[b"DEBUG", b"SET-ACTIVE-EXPIRE", b"1"])),
+        ],
+        1 => k().prop_map(|k| a(&[b"DEBUG", b"OBJECT", &k])),
+    ]
+    .boxed()
+}
+
+/// aimed at the "key-less command reaches shard 0 only" pattern for the script cache: run a
+/// script on some key, change the cache through a key-less command, then look at it again both
+/// through a key (EVALSHA on a generated key) and through shard 0 (SCRIPT EXISTS)
+fn script_probe(o: &GenOpts) -> BoxedStrategy<Vec<Argv>> {
+    (0usize..4, gen::key(o), gen::key(o), gen::value(), any::<bool>(), 0u8..3).prop_map(|(i, k1, k2, v, first_by_load, mid)| {
+        let mut out = Vec::new();
+        if first_by_load {
+            out.push(a(&[b"SCRIPT", b"LOAD", SCRIPTS[i]]));
+            out.push(script_call(true, i, &k1, &v));
+        } else {
+            out.push(script_call(false, i, &k1, &v));
+        }
+        out.push(a(&[b"SCRIPT", b"FLUSH"]));
+        match mid {
+            0 => {}
+            1 => out.push(script_call(false, i, &k2, &v)), // the NOSCRIPT fallback dance
+            _ => out.push(a(&[b"SCRIPT", b"LOAD", SCRIPTS[i]])),
+        }
+        out.push(script_call(true, i, &k1, &v));
+        out.push(a(&[b"SCRIPT", b"EXISTS", &sha_of(SCRIPTS[i])]));
+        out.push(script_call(true, i, &k2, &v));
+        out
+    })
+    .boxed()
+}
+
+/// evidence label of a command that has no routing key / touches non-keyspace state
+fn keyless_family(argv: &Argv) -> Option<String> {
+    let name = cmd_name(argv);
+    let sub = || argv.get(1).map(|s| String::from_utf8_lossy(s).to_uppercase()).unwrap_or_default();
+    Some(match name.as_str() {
+        "SCRIPT" | "CONFIG" | "CLIENT" | "COMMAND" | "FUNCTION" => format!("{} {}", name, sub()),
+        "OBJECT" | "DEBUG" => format!("{} {}", name, sub()),
+        "EVAL" | "EVALSHA" | "SELECT" | "ECHO" | "PING" | "WAIT" | "DBSIZE" | "FLUSHDB" | "FLUSHALL" | "KEYS" | "SCAN"
+        | "RANDOMKEY" | "NOSUCHCOMMAND" | "MULTI" | "EXEC" | "DISCARD" | "WATCH" | "UNWATCH" => name,
+        _ => return None,
+    })
+}
+
 fn clock_ms() -> BoxedStrategy<u64> {
     prop_oneof![
         4 => 0u64..50,
@@ -840,6 +970,7 @@ fn step_strategy() -> BoxedStrategy<Vec<Step>> {
     let single: BoxedStrategy<Step> = prop_oneof![
         50 => gen::data_command(&o).prop_map(|argv| Step::Cmd { argv, path: Path::Generic }),
         8 => extra_commands(&o).prop_map(|argv| Step::Cmd { argv, path: Path::Generic }),
+        12 => server_commands(&o).prop_map(|argv| Step::Cmd { argv, path: Path::Generic }),
         14 => (gen::key(&o), path()).prop_map(|(k, path)| Step::Cmd { argv: a(&[b"GET", &k]), path }),
         14 => (gen::key(&o), gen::value(), path())
             .prop_map(|(k, v, path)| Step::Cmd { argv: a(&[b"SET", &k, &v]), path }),
@@ -873,6 +1004,7 @@ fn step_strategy() -> BoxedStrategy<Vec<Step>> {
     prop_oneof![
         40 => single.prop_map(|s| vec![s]),
         1 => ttl_probe,
+        1 => script_probe(&o).prop_map(|cmds| cmds.into_iter().map(|argv| Step::Cmd { argv, path: Path::Generic }).collect()),
     ]
     .boxed()
 }
@@ -956,6 +1088,8 @@ fn conn_case() -> BoxedStrategy<ConnCase> {
         2 => (k(), k()).prop_map(|(k, d)| vec![a(&[b"SORT", &k, b"STORE", &d])]),
         2 => (k(), k()).prop_map(|(k, d)| vec![a(&[b"EVAL", EVAL_COPY, b"2", &k, &d])]),
         2 => k().prop_map(|k| vec![a(&[b"EVAL", EVAL_INCR, b"1", &k])]),
+        10 => server_commands(&o).prop_map(|c| vec![c]),
+        2 => script_probe(&o),
     ]
     .boxed();
     (
@@ -1033,6 +1167,9 @@ fn check_conn(case: &ConnCase, ctx: &mut CaseCtx<'_>) -> Result<(), String> {
     for c in &case.cmds {
         let mut c = c.clone();
         let name = cmd_name(&c);
+        if let Some(f) = keyless_family(&c) {
+            ctx.label(&format!("cmd:{}", f));
+        }
         match name.as_str() {
             "MULTI" => {
                 in_multi = true;
